@@ -49,6 +49,8 @@ def run(rep, progs, tier):
         # "however the replies are segmented into reads": the part of an idle reply that was read but not yet parsed lives in the
         # connection's receive buffer — who may write or empty that buffer is C02's rule, decided here for C04's clause
         from .C02 import persist_rule
+        from .C10 import READS
+        READS.bind(prog)
         with rep.importing("C02.persist", "C04.segmentation.persist"):
             persist_rule(rep, prog, cfg)
 
